@@ -1187,12 +1187,21 @@ fn mutate_ops(rng: &mut Rng, data: &[u8], l: &Layout) -> (Vec<u8>, String) {
     }
 }
 
+// panic signature without the toolchain hash in paths below /rustc/<hash>/
+fn psig(p: &PanicInfo) -> String {
+    let s = p.signature();
+    match (s.find("/rustc/"), s.find("/library/")) {
+        (Some(a), Some(b)) if a < b => format!("{}rustc{}", &s[..a], &s[b..]),
+        _ => s,
+    }
+}
+
 fn check_ops_mutant(rep: &mut Report, cw: &mut CaseWriter, data: &[u8], kind: &str, origin: &str) {
     let chunk = build_chunk(1, data);
     let replay = json!({"origin": origin, "mutation": kind, "chunk": hex(&chunk)});
     let (st, lops): (u128, String) = match guard(|| Change::from_bytes(chunk.clone())) {
         Err(p) => {
-            rep.fail(&["C15", "C18"], &format!("panic|from_bytes|{}", p.signature()),
+            rep.fail(&["C15", "C18"], &format!("panic|from_bytes|{}", psig(&p)),
                 &format!("Change::from_bytes of a change chunk with mutated op columns panicked: {} at {}", p.message, p.location), replay.clone());
             (3, "[]".into())
         }
@@ -1214,7 +1223,7 @@ fn check_ops_mutant(rep: &mut Report, cw: &mut CaseWriter, data: &[u8], kind: &s
                     (0, coq_lops(&e))
                 }
                 Err(p) => {
-                    rep.fail(&["C15", "C18"], &format!("panic|decode-mutant|{}", p.signature()),
+                    rep.fail(&["C15", "C18"], &format!("panic|decode-mutant|{}", psig(&p)),
                         &format!("decode of a change accepted by from_bytes panicked: {} at {}", p.message, p.location), replay.clone());
                     (1, "[]".into())
                 }
@@ -1387,7 +1396,15 @@ pub fn run(rng: &mut Rng, tier: &str, out: &str) -> Report {
 
     // ---- malformed stream: the op-column region ----
     for _k in 0..n_ops_mut {
-        let (data, origin) = rng.pick(&ops_pool).clone();
+        // mostly changes that have ops
+        let mut picked = rng.pick(&ops_pool).clone();
+        for _ in 0..3 {
+            if layout_of(&picked.0).map(|l| l.data.1 > l.data.0).unwrap_or(false) {
+                break;
+            }
+            picked = rng.pick(&ops_pool).clone();
+        }
+        let (data, origin) = picked;
         let l = match layout_of(&data) {
             Some(l) => l,
             None => continue,
